@@ -85,9 +85,11 @@ def struct_fields(n):
         return list(last.items())
     return [(nm, v) for nm, ex, tag, v in fs if ex]
 
-def norm(n, pd, su, proto):
+def norm(n, pd, su, proto, su_dec=None):
     """dump text of Decode(Encode(n)) per the documented table; raises Unencodable for the
-    documented errors (unsupported kinds, protocol limitations)"""
+    documented errors (unsupported kinds, protocol limitations).  su = encoder's StrictUnicode;
+    su_dec = decoder's (default: the same)"""
+    if su_dec is None: su_dec = su
     k = n[0]
     if k in ("nil", "none", "nilp"): return "N"
     if k == "bool": return "T" if n[1] else "F"
@@ -102,41 +104,41 @@ def norm(n, pd, su, proto):
             as_unicode = su_enc(su) or proto >= 3
             if as_unicode and proto == 0 and not valid_utf8(b): raise Unencodable("p0unicode")
             if as_unicode: return "s:" + hx(b)
-            return ("z:" if su else "s:") + hx(b)
+            return ("z:" if su_dec else "s:") + hx(b)
         if kind == "y":
             if proto == 0 and not valid_utf8(b): raise Unencodable("p0unicode")
             return "s:" + hx(b)
         if kind == "b": return "b:" + hx(b)
-        if kind == "z": return ("z:" if su else "s:") + hx(b)
+        if kind == "z": return ("z:" if su_dec else "s:") + hx(b)
     if k == "bytes": return "a:" + hx(n[2])
-    if k == "tuple": return "t(" + "".join(" " + norm(x, pd, su, proto) for x in n[1]) + " )"
-    if k == "list": return "l[" + "".join(" " + norm(x, pd, su, proto) for x in n[2]) + " ]"
+    if k == "tuple": return "t(" + "".join(" " + norm(x, pd, su, proto, su_dec) for x in n[1]) + " )"
+    if k == "list": return "l[" + "".join(" " + norm(x, pd, su, proto, su_dec) for x in n[2]) + " ]"
     if k == "map":
         if not pd and any(go_unhashable_key(a) for a, b in n[2]):
             raise Unencodable("mapkey")      # documented: default map mode cannot hold such keys
-        return ("d{" if pd else "m{") + "".join(" " + norm(a, pd, su, proto) + " " + norm(b, pd, su, proto) for a, b in n[2]) + " }"
+        return ("d{" if pd else "m{") + "".join(" " + norm(a, pd, su, proto, su_dec) + " " + norm(b, pd, su, proto, su_dec) for a, b in n[2]) + " }"
     if k == "class":
         if proto <= 3 and (b"\n" in n[1] or b"\n" in n[2]): raise Unencodable("p0123global")
         if proto >= 4 and proto == 0: pass
         return "g:%s:%s" % (hx(n[1]), hx(n[2]))
     if k == "call":
         if proto <= 3 and (b"\n" in n[1] or b"\n" in n[2]): raise Unencodable("p0123global")
-        return "C( g:%s:%s t(%s ) )" % (hx(n[1]), hx(n[2]), "".join(" " + norm(x, pd, su, proto) for x in n[3]))
+        return "C( g:%s:%s t(%s ) )" % (hx(n[1]), hx(n[2]), "".join(" " + norm(x, pd, su, proto, su_dec) for x in n[3]))
     if k == "ref":
         if proto == 0:
             p = n[1]
             if not (p[0] == "str" and p[1] == "s" and b"\n" not in p[2]): raise Unencodable("p0persid")
             return "R( s:%s )" % hx(p[2])
-        return "R( " + norm(n[1], pd, su, proto) + " )"
+        return "R( " + norm(n[1], pd, su, proto, su_dec) + " )"
     if k in ("struct", "zoo"):
         items = []
         for nm, v in struct_fields(n):
-            items.append(" " + norm(("str", "s", nm), pd, su, proto) + " " + norm(v, pd, su, proto))
+            items.append(" " + norm(("str", "s", nm), pd, su, proto, su_dec) + " " + norm(v, pd, su, proto, su_dec))
         return ("d{" if pd else "m{") + "".join(items) + " }"
     if k == "ptr":
         if n[2] is not None and is_struct(n[1]):
-            return norm(("ref", n[2]), pd, su, proto)
-        return norm(n[1], pd, su, proto)
+            return norm(("ref", n[2]), pd, su, proto, su_dec)
+        return norm(n[1], pd, su, proto, su_dec)
     raise AssertionError(n)
 
 def su_enc(su): return su
